@@ -309,12 +309,14 @@ def run(ctx, cases_override=None):
                 c = dict(id=toks[0], line=l.split(" ", 1)[1], typ=int(toks[2]), adj=int(toks[3]), approx=int(toks[4]), spec=toks[6], crs=" ".join(toks[7:]), rows=None)
                 fails += run_schur(ctx, [c])
             elif op == "schur_pattern": fails += run_patterns(ctx, [(toks_pat(l))])
-            elif op == "cpr":
-                fails += run_cpr(ctx, [dict(id=toks[0], line=l.split(" ", 1)[1], kind=toks[2], b=int(toks[3]), active=int(toks[4]), crs=" ".join(toks[5:]), grp=None)])
+            elif op == "cpr":     # replayed lines carry the model-side flag (dropped here, re-derived from the tree)
+                toks = toks[:5] + toks[6:]
+                fails += run_cpr(ctx, [dict(id=toks[0], line=" ".join(toks[1:]), kind=toks[2], b=int(toks[3]), active=int(toks[4]), crs=" ".join(toks[5:]), grp=None)])
             elif op == "cprdrs":
+                toks = toks[:5] + toks[6:]
                 nw = int(toks[7]); w = [F(x) for x in toks[8:8 + nw]]; crs = " ".join(toks[8 + nw:])
                 rows = [sorted((cc, F(v)) for cc, v in rw) for rw in crs_rows(crs)]
-                fails += run_cprdrs(ctx, [dict(id=toks[0], line=l.split(" ", 1)[1], kind=toks[2], b=int(toks[3]), active=int(toks[4]), eps_dd=F(toks[5]), eps_ps=F(toks[6]),
+                fails += run_cprdrs(ctx, [dict(id=toks[0], line=" ".join(toks[1:]), kind=toks[2], b=int(toks[3]), active=int(toks[4]), eps_dd=F(toks[5]), eps_ps=F(toks[6]),
                                                w=w, rows=rows, n=len(rows), grp=0)])
             elif op == "deflate":
                 k = crs_len(toks, 3); nv = int(toks[k]); k += 1
@@ -421,13 +423,29 @@ def run_patterns(ctx, pats):
     return fails
 
 
+def repaired(ctx, header):
+    """1 if the tree under test has the repaired block-valued init() of cpr / cpr_drs (entries of the active
+    rows in inactive block columns are skipped); the model driver then uses Cpr.cprb_setup_f / CprDrs.drsb_setup_f"""
+    try:
+        src = open(os.path.join(ctx["repo"], "amgcl", "preconditioner", header)).read()
+    except OSError:
+        return 0
+    return 1 if "if (K->col[j] >= N) continue;" in src else 0
+
+def with_flag(line, fx):
+    """'cpr kind b active crs...' -> 'cpr kind b active fx crs...'"""
+    t = line.split(" ", 4)
+    return " ".join(t[:4] + [str(fx)] + t[4:])
+
+
 def run_cpr(ctx, cs):
-    lines = ["%s %s" % (c["id"], c["line"]) for c in cs]
+    fx = repaired(ctx, "cpr.hpp")
+    lines = ["%s %s" % (c["id"], with_flag(c["line"], fx)) for c in cs]
     f, impl, _ = diff_run_all(ctx, "composite", lines, theorem="correspondence drv_composite (preconditioner::cpr with a recording exact pressure stage) vs Cpr.v (cpr_setup / cprb_setup / cpr_partial_update) + Composite.v cpr_apply")
     fails = list(f); ol = []; byid = {}
     grp = {}
-    for c in cs:
-        cid = c["id"]; line = "%s %s" % (cid, c["line"]); byid[cid] = line
+    for c, line in zip(cs, lines):
+        cid = c["id"]; byid[cid] = line
         o = impl.get(cid, "")
         if c["kind"] == "update_dummy":
             ctx["stats"]["oracle_checks"] += 1
@@ -457,7 +475,8 @@ def run_cpr(ctx, cs):
 
 
 def run_cprdrs(ctx, cs):
-    lines = ["%s %s" % (c["id"], c["line"]) for c in cs]
+    fx = repaired(ctx, "cpr_drs.hpp")
+    lines = ["%s %s" % (c["id"], with_flag(c["line"], fx)) for c in cs]
     upd = [l for l, c in zip(lines, cs) if c["kind"] == "update"]
     f, impl, _ = diff_run_all(ctx, "composite", [l for l in lines if l not in upd],
                               theorem="correspondence drv_composite (preconditioner::cpr_drs with a recording exact pressure stage) vs CprDrs.v (drs_make / drsb_make) + Composite.v cpr_apply")
@@ -472,6 +491,12 @@ def run_cprdrs(ctx, cs):
         ctx["stats"]["oracle_checks"] += 1
         if c["kind"] == "update":
             if o.startswith("EXC runtime_error singular_pressure_matrix") and drs_spec(c)[1] is None: continue   # no preconditioner to update
+            if not o.startswith("CRASH"):      # the implementation returned: it must agree with the model of the repaired behaviour
+                mo = ctx["run_driver"](ctx["model"], [line], shards=1).get(c["id"])
+                if mo != o:
+                    ctx["stats"]["mismatches"] += 1
+                    fails.append(dict(kind="counterexample", case=line, impl=o[:300], model=(mo or "")[:300], op="cprdrs", size=len(line),
+                                      theorem="correspondence drv_composite (cpr_drs::partial_update) vs CprDrs.v drs_partial_update"))
             if not o.startswith("same "):
                 x = dict(kind="counterexample", case=line, impl=o[:300], model="same ...", op="cprdrs", size=len(line),
                          theorem="C18: a partial update of CPR (cpr_drs) with an unchanged matrix leaves its action unchanged")
